@@ -12,30 +12,47 @@ open Svc
 
 def OSane (id : Nat) (o : Oracle) : Prop := ∀ r a, o.newLocal = some (r, a) → r.id = id
 
+/-- A record the service may ask: contactable in the node's IP mode and accepted by the table filter. -/
+def Adm (m : IpMode) (r : Rec) : Prop := contactable m r = true ∧ r.passesFilter = true
+
+/-- Every untrusted record of the running lookup (the records `send_rpc_query` finds for the candidates
+the lookup learned from answers and from the table it started on) is admissible. -/
+def UOk (s : Svc) : Prop := ∀ q, s.query = some q → ∀ r ∈ q.untrusted, Adm s.cfg.ipMode r
+
 structure Step (P : Nat → Rec → Prop) (o : Oracle) (s s' : Svc) : Prop where
   cfg : s'.cfg = s.cfg
   localKey : s'.table.localKey = s.table.localKey
   tinv : TInv s.cfg.kb s.table → TInv s.cfg.kb s'.table
   vals : TVals P s.table → TVals P s'.table
   localId : OSane s.localRec.id o → s'.localRec.id = s.localRec.id
+  /-- when the value predicate implies admissibility: the untrusted records stay admissible -/
+  untr : (∀ k v, P k v → Adm s.cfg.ipMode v) → TVals P s.table → UOk s → UOk s'
 
 variable {P : Nat → Rec → Prop} {o : Oracle} {s s1 s2 s' : Svc}
 
-theorem Step.refl : Step P o s s := ⟨rfl, rfl, id, id, fun _ => rfl⟩
+theorem Step.refl : Step P o s s := ⟨rfl, rfl, id, id, fun _ => rfl, fun _ _ h => h⟩
 
 theorem Step.trans (h1 : Step P o s s1) (h2 : Step P o s1 s2) : Step P o s s2 :=
   ⟨h2.cfg.trans h1.cfg, h2.localKey.trans h1.localKey,
    fun h => by have := h2.tinv (by rw [h1.cfg]; exact h1.tinv h); rwa [h1.cfg] at this,
    fun h => h2.vals (h1.vals h),
-   fun h => by rw [h2.localId (by rw [h1.localId h]; exact h), h1.localId h]⟩
+   fun h => by rw [h2.localId (by rw [h1.localId h]; exact h), h1.localId h],
+   fun hp hv hu => h2.untr (by rw [h1.cfg]; exact hp) (h1.vals hv) (h1.untr hp hv hu)⟩
 
-theorem Step.of_eq (hc : s'.cfg = s.cfg) (ht : s'.table = s.table) (hl : s'.localRec = s.localRec) :
+theorem UOk.of_eq (hu : UOk s) (hc : s'.cfg = s.cfg) (hq : s'.query = s.query) : UOk s' := by
+  intro q hq' r hr
+  rw [hc]
+  exact hu q (by rw [← hq]; exact hq') r hr
+
+theorem Step.of_eq (hc : s'.cfg = s.cfg) (ht : s'.table = s.table) (hl : s'.localRec = s.localRec)
+    (hq : s'.query = s.query := by rfl) :
     Step P o s s' :=
-  ⟨hc, by rw [ht], fun h => by rw [ht]; exact h, fun h => by rw [ht]; exact h, fun _ => by rw [hl]⟩
+  ⟨hc, by rw [ht], fun h => by rw [ht]; exact h, fun h => by rw [ht]; exact h, fun _ => by rw [hl],
+   fun _ _ hu => hu.of_eq hc hq⟩
 
 theorem Step.table (t : Table Rec) (hk : t.localKey = s.table.localKey)
     (hi : TInv s.cfg.kb s.table → TInv s.cfg.kb t) (hv : TVals P s.table → TVals P t) :
-    Step P o s { s with table := t } := ⟨rfl, hk, hi, hv, fun _ => rfl⟩
+    Step P o s { s with table := t } := ⟨rfl, hk, hi, hv, fun _ => rfl, fun _ _ hu => hu.of_eq rfl rfl⟩
 
 theorem entry_step (s : Svc) (key : Nat) : Step P o s (s.entry key).1 :=
   Step.table _ entryTouch_localKey entryTouch_tinv entryTouch_vals
@@ -253,16 +270,86 @@ theorem discoveredLoop_step (m : IpMode) (hupd : Upd m P) (source : Nat) :
     simp only at h1 ⊢
     exact h1.trans (ih s1 _ _ (by rw [h1.cfg]; exact hm))
 
+/-- What one pass of the `retain` closure of `discovered` keeps is admissible. -/
+theorem discoveredOne_keep_adm (s : Svc) (source : Nat) (r : Rec)
+    (h : (s.discoveredOne source r).2.1 = true) : Adm s.cfg.ipMode r := by
+  unfold discoveredOne at h
+  by_cases hl : (r.id == s.localRec.id) = true
+  · simp [hl] at h
+  · by_cases hok : (r.passesFilter && contactable s.cfg.ipMode r) = true
+    · have hp : r.passesFilter = true ∧ contactable s.cfg.ipMode r = true := by
+        simpa [Bool.and_eq_true] using hok
+      exact ⟨hp.2, hp.1⟩
+    · simp [hl, hok] at h
+
+theorem discoveredLoop_kept_adm (source : Nat) :
+    ∀ (recs : List Rec) (s : Svc) (kept : List Rec) (outs : List Out),
+      ∀ r ∈ (discoveredLoop s source recs kept outs).2.1, r ∈ kept ∨ Adm s.cfg.ipMode r := by
+  intro recs
+  induction recs with
+  | nil => intro s kept outs r hr; unfold discoveredLoop at hr; exact Or.inl hr
+  | cons x rs ih =>
+    intro s kept outs r hr
+    unfold discoveredLoop at hr
+    have hcfg : (s.discoveredOne source x).1.cfg = s.cfg :=
+      (discoveredOne_step (P := fun _ _ => True) (o := ({} : Oracle)) s source x
+        (fun _ _ _ _ _ => trivial)).cfg
+    have hkeep := discoveredOne_keep_adm s source x
+    generalize s.discoveredOne source x = y at hr hcfg hkeep
+    obtain ⟨s1, keep, o1⟩ := y
+    simp only at hr hcfg hkeep
+    rcases ih s1 _ _ r hr with hk | hadm
+    · cases keep with
+      | false => exact Or.inl (by simpa using hk)
+      | true =>
+        simp only [if_true] at hk
+        rcases List.mem_append.mp hk with h | h
+        · exact Or.inl h
+        · have : r = x := by simpa using h
+          subst this
+          exact Or.inr (hkeep rfl)
+    · rw [hcfg] at hadm; exact Or.inr hadm
+
+/-- The `untrusted_enrs` update of `discovered` adds nothing but kept records. -/
+theorem foldl_untrusted_mem (kept : List Rec) :
+    ∀ (u : List Rec), ∀ r ∈ kept.foldl
+        (fun (u : List Rec) r => if u.any (fun e => e.id == r.id) then u else u ++ [r]) u,
+      r ∈ u ∨ r ∈ kept := by
+  induction kept with
+  | nil => intro u r hr; exact Or.inl hr
+  | cons x xs ih =>
+    intro u r hr
+    rw [List.foldl_cons] at hr
+    rcases ih _ r hr with h | h
+    · split at h
+      · exact Or.inl h
+      · rcases List.mem_append.mp h with h | h
+        · exact Or.inl h
+        · exact Or.inr (by simp at h; simp [h])
+    · exact Or.inr (List.mem_cons_of_mem _ h)
+
 theorem discovered_step (s : Svc) (source : Nat) (recs : List Rec) (q : Option Nat)
     (hupd : Upd s.cfg.ipMode P) : Step P o s (s.discovered source recs q).1 := by
   unfold discovered
   have h1 := discoveredLoop_step (o := o) s.cfg.ipMode hupd source recs s [] [] rfl
-  generalize discoveredLoop s source recs [] [] = x at h1 ⊢
+  have hk := discoveredLoop_kept_adm source recs s [] []
+  generalize discoveredLoop s source recs [] [] = x at h1 hk ⊢
   obtain ⟨s1, kept, outs⟩ := x
-  simp only at h1 ⊢
+  simp only at h1 hk ⊢
   split
-  · split
-    · exact h1.trans (Step.of_eq rfl rfl rfl)
+  · rename_i qid qq hqs
+    split
+    · refine h1.trans ⟨rfl, rfl, id, id, fun _ => rfl, ?_⟩
+      intro _ _ hu q' hq' r hr
+      simp only [Option.some.injEq] at hq'
+      subst hq'
+      simp only at hr
+      rcases foldl_untrusted_mem kept qq.untrusted r hr with h | h
+      · exact hu qq (by assumption) r h
+      · rcases hk r h with h0 | h0
+        · simp at h0
+        · show Adm s1.cfg.ipMode r
+          rw [h1.cfg]; exact h0
     · exact h1
   · exact h1
 
@@ -345,7 +432,7 @@ theorem ipVote_step (s : Svc) (peer : Nat) : Step P o s (s.ipVote o peer).1 := b
       | some ra =>
         obtain ⟨r, a⟩ := ra
         simp only
-        refine he.trans ⟨rfl, rfl, id, id, ?_⟩
+        refine he.trans ⟨rfl, rfl, id, id, ?_, fun _ _ hu => hu.of_eq rfl rfl⟩
         intro ho
         exact ho r a hn
 
@@ -478,7 +565,14 @@ theorem startQuery_step (s : Svc) (target : Nat) : Step P o s (s.startQuery targ
   simp only
   split
   · exact h1
-  · exact h1.trans (Step.of_eq rfl rfl rfl)
+  · refine ⟨rfl, closest_localKey, closest_tinv, closest_vals, fun _ => rfl, ?_⟩
+    intro hp hv _ q' hq' r hr
+    simp only [Option.some.injEq] at hq'
+    subst hq'
+    simp only [List.mem_map] at hr
+    obtain ⟨n, hn, rfl⟩ := hr
+    -- (the values `closest_values` yields are values of the table)
+    exact hp _ _ (closest_out_vals hv n hn)
 
 theorem sendRpcQuery_step (s : Svc) (peer : Nat) : Step P o s (s.sendRpcQuery peer).1 := by
   unfold sendRpcQuery
@@ -536,7 +630,9 @@ theorem step_step (s : Svc) (i : Svc.Input)
     | some a => exact sendRpcRequest_step ..
   | startQuery target => unfold step; exact startQuery_step ..
   | queryEmit peer => unfold step; exact sendRpcQuery_step ..
-  | queryFinished => unfold step; exact Step.of_eq rfl rfl rfl
+  | queryFinished =>
+    unfold step
+    exact ⟨rfl, rfl, id, id, fun _ => rfl, fun _ _ _ q hq => by cases hq⟩
 
 
 /-- The value stored or pending under `key` (what `Entry::value()` would read). -/
